@@ -695,6 +695,19 @@ func runC10(c *Ctx) {
 			reporters[f] = true
 		}
 	}
+	// functions that only ever run under the backend's read of the request body
+	var bodyReads []*ssa.Function
+	for _, ra := range readerAdapters(p) {
+		bodyReads = append(bodyReads, ra.read)
+	}
+	underBodyRead := func(fn *ssa.Function) bool {
+		for _, rd := range bodyReads {
+			if p.OnlyCalledWithin(fn, rd) {
+				return true
+			}
+		}
+		return false
+	}
 	reach = p.RequestTimeReach()
 	for _, fn := range p.Funcs {
 		if !reach[fn] || !p.inScope(fn) || isLimitCtor(fn) {
@@ -747,6 +760,33 @@ func runC10(c *Ctx) {
 				}
 			}
 			follow(cv, 0)
+			// An error returned from code that only ever runs under the backend's read of the
+			// request body ends up in the backend handler's hands, not the client's: there it must
+			// be reported as well (by this function, or by the caller that receives it).
+			if !reported && returned && underBodyRead(fn) {
+				viaCaller := len(p.Callers(fn)) > 0
+				for _, e := range p.Callers(fn) {
+					if e.Kind != "static" {
+						viaCaller = false
+						continue
+					}
+					repInCaller := false
+					if cv2, ok := e.Site.(*ssa.Call); ok {
+						saveRep, saveRet := reported, returned
+						reported, returned = false, false
+						seenV = map[ssa.Value]bool{}
+						follow(cv2, 0)
+						repInCaller = reported
+						reported, returned = saveRep, saveRet
+					}
+					if !repInCaller {
+						viaCaller = false
+					}
+				}
+				if !viaCaller {
+					returned = false
+				}
+			}
 			c.Check(reported || returned, "C10.5", FuncName(fn), "limit-error-reaches-client", call.Pos(),
 				"the limit error is passed to a reporter or returned to the caller",
 				"a resource_exhausted error is constructed but neither reported nor returned (only stored): the client is not told that the message exceeded the limit")
